@@ -155,7 +155,7 @@ impl Engine for C13 {
     }
     fn bound(&self, tier: Tier) -> String {
         match tier {
-            Tier::Quick => format!("{} befores x {} prefixes x {} links x {} hosts, LF after", BEFORES.len(), PREFIXES.len(), LINKS.len(), HOSTS.len()),
+            Tier::Quick => format!("{} befores x {} prefixes x {} links x {} hosts x {{LF, CRLF}} after", BEFORES.len(), PREFIXES.len(), LINKS.len(), HOSTS.len()),
             Tier::Thorough => format!("{} befores x {} prefixes x {} links x {} hosts x {{LF, CRLF}} after", BEFORES.len(), PREFIXES.len(), LINKS.len(), HOSTS.len()),
         }
     }
@@ -166,7 +166,9 @@ impl Engine for C13 {
         ]
     }
     fn enumerate(&self, tier: Tier, emit: &mut dyn FnMut(&str)) {
-        let afters: &[&str] = if tier == Tier::Thorough { &["lf", "crlf"] } else { &["lf"] };
+        // the whole space takes about a second: both tiers run it
+        let _ = tier;
+        let afters: &[&str] = &["lf", "crlf"];
         for a in afters {
             for b in BEFORES {
                 for p in PREFIXES {
